@@ -442,6 +442,9 @@ def run_one(spec: JobSpec, hosts, workers, gpus, seed=0, prefix=None, fifo=True,
             allv.append(dict(info, prop=prop, obligation=ob, observed=what, cls=cls, log=log))
     if not ok:
         allv.append(info)
+        if info.get("prop") == "C03" and spec.ext and info.get("obligation") in ("C03/controller-never-raises", "C03/no-wait-when-nothing-outstanding", "C03/bounded-rounds"):
+            # a run that crashes / deadlocks delivers none of the requested datasets: the same witness also violates C01's first sentence
+            allv.append(dict(info, prop="C01", obligation="C01/requested-outputs-delivered", observed="run did not deliver the requested outputs: " + str(info.get("observed"))))
     info = dict(info)
     info["all"] = allv
     return (ok and not allv), info
@@ -567,6 +570,10 @@ def wide_output_jobs():
             tasks[f"c{i}"] = {"outputs": ["0"], "static_ps": {}, "static_kw": {}}
             edges.append(("g", str(i), f"c{i}", 0))
         out.append(JobSpec(tasks, edges, [(f"c{i}", "0") for i in (0, 2, 9, 10)]))
+        # the generator itself consumes a dataset: its input must stay until ALL of its outputs are published
+        t2 = {k: dict(v) for k, v in tasks.items()}
+        t2["src"] = {"outputs": ["0"], "static_ps": {}, "static_kw": {}}
+        out.append(JobSpec(t2, edges + [("src", "0", "g", 0)], [(f"c{i}", "0") for i in (0, 10)]))
     return out
 
 
